@@ -98,23 +98,58 @@ Qed.
 
 (** ** next_table_TOUGH2 between two tables *)
 Definition not_kcyc (l : str) : Prop := is_kcyc l = false.
+(** an EOS7c 'MASS FLOW RATES (KG/S) FROM DIFFUSION' block between two tables: lines without a KCYC/ITER line, a KCYC/ITER
+    line, blank lines, the title line, lines up to an '@@@@@' line; [next_table_TOUGH2] passes over it *)
+Definition mblock (b : list str) : Prop :=
+  exists nk kc bl m body sp, b = nk ++ kc :: bl ++ m :: body ++ [sp] /\ Forall not_kcyc nk /\ is_kcyc kc = true
+    /\ Forall (fun l => is_blank l = true) bl /\ is_blank m = false /\ str_eqb (fstrip m) mass_flow_title = true
+    /\ Forall (no_kw 1 kw_at) body /\ starts_at 1 kw_at sp = true.
 Record inter_ok (fullpos : list cur) (index : Z) (inter : list str) (hdr : str) (name : str) (r : cur) : Prop := {
-  io_split : exists nk kc bl, inter = nk ++ kc :: bl /\ Forall not_kcyc nk /\ is_kcyc kc = true /\ Forall (fun l => is_blank l = true) bl
-                              /\ past_next_set fullpos index (bl ++ hdr :: r) = Ok false;
+  io_split : exists blocks nk kc bl, inter = concat blocks ++ nk ++ kc :: bl /\ Forall mblock blocks /\ Forall not_kcyc nk /\ is_kcyc kc = true
+                                     /\ Forall (fun l => is_blank l = true) bl;
+  io_past : forall c, past_next_set fullpos index (c ++ hdr :: r) = Ok false;
   io_hdr : is_blank hdr = false;
   io_mass : str_eqb (fstrip hdr) mass_flow_title = false;
   io_type : table_type_T2 (firstn 3 (split_ws (fstrip hdr))) = Ok (Some name)
 }.
+Lemma next_table_blocks fullpos index hdr name r nk kc bl : Forall not_kcyc nk -> is_kcyc kc = true -> Forall (fun l => is_blank l = true) bl ->
+  (forall c, past_next_set fullpos index (c ++ hdr :: r) = Ok false) -> is_blank hdr = false -> str_eqb (fstrip hdr) mass_flow_title = false ->
+  table_type_T2 (firstn 3 (split_ws (fstrip hdr))) = Ok (Some name) ->
+  forall blocks fuel z, length blocks <= fuel -> Forall not_kcyc z -> Forall mblock blocks ->
+  next_table_T2 (S fuel) fullpos index (z ++ concat blocks ++ nk ++ kc :: bl ++ hdr :: r) = Ok (Some name, hdr :: r).
+Proof.
+  intros Hnk Hkc Hbl Hpast Hh Hm Ht. induction blocks as [|b blocks IH]; intros fuel z Hf Hz Hb.
+  - cbn [concat app next_table_T2]. rewrite app_assoc.
+    rewrite (scan_past_app is_kcyc (z ++ nk) kc _); [|apply Forall_app; split; assumption|exact Hkc].
+    rewrite (Hpast bl). cbn [bind]. rewrite (skip_to_nonblank_app bl hdr r Hbl Hh). cbn [bind readline]. rewrite Hm, Ht. reflexivity.
+  - destruct fuel as [|f]; [cbn in Hf; lia|]. inversion Hb as [|? ? [nk' [kc' [bl' [m [body [sp [E [H1 [H2 [H3 [H4 [H5 [H6 H7]]]]]]]]]]]]] Hb']; subst.
+    cbn [concat next_table_T2]. repeat (rewrite <- app_assoc; cbn [app]). rewrite app_assoc.
+    rewrite (scan_past_app is_kcyc (z ++ nk') kc' _); [|apply Forall_app; split; assumption|exact H2].
+    match goal with |- context [past_next_set fullpos index ?R] => assert (HP : past_next_set fullpos index R = Ok false) end.
+    { replace (bl' ++ m :: body ++ sp :: concat blocks ++ nk ++ kc :: bl ++ hdr :: r)
+        with ((bl' ++ m :: body ++ sp :: concat blocks ++ nk ++ kc :: bl) ++ hdr :: r) by (repeat (rewrite <- app_assoc; cbn [app]); reflexivity).
+      apply Hpast. }
+    rewrite HP. cbn [bind]. rewrite (skip_to_nonblank_app bl' m _ H3 H4). cbn [bind readline]. rewrite H5.
+    rewrite (skipto1_app 1 kw_at body sp _ H6 H7). cbn [snd].
+    specialize (IH f [] ltac:(cbn [length] in Hf; lia) (Forall_nil _) Hb'). cbn [app] in IH. exact IH.
+Qed.
+Lemma concat_length_ge {A} (bs : list (list A)) : Forall (fun b => b <> []) bs -> length bs <= length (concat bs).
+Proof. induction 1 as [|b bs H _ IH]; cbn [concat length]; [lia|]. rewrite app_length. destruct b; [congruence|cbn [length]; lia]. Qed.
 Lemma next_table_inter fuel fullpos index z inter hdr name r :
-  Forall not_kcyc z -> inter_ok fullpos index inter hdr name r ->
+  Forall not_kcyc z -> inter_ok fullpos index inter hdr name r -> length inter <= fuel ->
   next_table_T2 (S fuel) fullpos index (z ++ inter ++ hdr :: r) = Ok (Some name, hdr :: r).
 Proof.
-  intros Hz [[nk [kc [bl [E [Hnk [Hkc [Hbl Hpast]]]]]]] Hh Hm Ht]. subst inter.
-  cbn [next_table_T2]. rewrite <- app_assoc. cbn [app]. rewrite app_assoc.
-  rewrite (scan_past_app is_kcyc (z ++ nk) kc _); [|apply Forall_app; split; assumption|exact Hkc].
-  rewrite Hpast. cbn [bind]. rewrite (skip_to_nonblank_app bl hdr r Hbl Hh). cbn [bind readline].
-  rewrite Hm, Ht. reflexivity.
+  intros Hz [[blocks [nk [kc [bl [E [Hb [Hnk [Hkc Hbl]]]]]]]] Hpast Hh Hm Ht] Hf. subst inter.
+  repeat (rewrite <- app_assoc; cbn [app]).
+  apply (next_table_blocks fullpos index hdr name r nk kc bl Hnk Hkc Hbl Hpast Hh Hm Ht blocks fuel z); [|exact Hz|exact Hb].
+  rewrite app_length in Hf. assert (length blocks <= length (concat blocks)); [|lia].
+  apply concat_length_ge. eapply Forall_impl; [|exact Hb]. intros b [nk' [kc' [bl' [m [body [sp [Eb _]]]]]]]. subst b. destruct nk'; discriminate.
 Qed.
+
+Lemma next_table_inter' fullpos index z inter hdr name r :
+  Forall not_kcyc z -> inter_ok fullpos index inter hdr name r ->
+  next_table_T2 (S (length (z ++ inter ++ hdr :: r))) fullpos index (z ++ inter ++ hdr :: r) = Ok (Some name, hdr :: r).
+Proof. intros Hz Hio. apply next_table_inter; [exact Hz|exact Hio|]. rewrite !app_length. lia. Qed.
 
 (** ** the tables of one result set *)
 (** the lines from the header of the first table on: tables separated by their [inter] lines, then [after] *)
@@ -227,7 +262,7 @@ Section Loops.
       + rewrite Hsim, (skip_spec s _ t _ HT1 (Hno _ Esk) Hs). cbn [bind].
         rewrite (next_table_T2_eq st _ Hsim).
         rewrite (p_lines_cons t'). cbn [app].
-        rewrite (next_table_inter _ _ _ [] inter (p_hdr t') (p_name t') _ (Forall_nil _) Hio). cbn [bind fst snd].
+        pose proof (next_table_inter' (s_fullpos st) (s_index st) [] inter (p_hdr t') (p_name t') _ (Forall_nil _) Hio) as NT. cbn [app] in NT. rewrite NT. clear NT. cbn [bind fst snd].
         cbn [with_tables s_sim]; rewrite ?Hsim, tp_rename_id.
         change (p_hdr t' :: tl (p_lines t') ++ rest_lines its after) with (p_lines t' ++ rest_lines its after).
         rewrite (IH f st t' Ts' after nelt Hsim ltac:(cbn [length] in Hf; lia) HT2 Hno Hin' Hend'). reflexivity.
@@ -236,7 +271,7 @@ Section Loops.
         rewrite (p_lines_cons t'). cbn [app].
         change (p_sep t :: inter ++ p_hdr t' :: tl (p_lines t') ++ rest_lines its after)
           with ([p_sep t] ++ inter ++ p_hdr t' :: tl (p_lines t') ++ rest_lines its after).
-        rewrite (next_table_inter _ _ _ [p_sep t] inter (p_hdr t') (p_name t') _ (Forall_cons _ Hk (Forall_nil _)) Hio). cbn [bind fst snd].
+        pose proof (next_table_inter' (s_fullpos st) (s_index st) [p_sep t] inter (p_hdr t') (p_name t') _ (Forall_cons _ Hk (Forall_nil _)) Hio) as NT. rewrite NT. clear NT. cbn [bind fst snd].
         cbn [with_tables s_sim]; rewrite ?Hsim, tp_rename_id.
         change (p_hdr t' :: tl (p_lines t') ++ rest_lines its after) with (p_lines t' ++ rest_lines its after).
         set (st1 := with_tables st (tab_add (p_name t) T (s_tables st))).
@@ -297,7 +332,7 @@ Section Loops.
       + destruct HT1 as [HT1 Hnone]. rewrite Hsim, (skip_spec s _ t _ HT1 Hnone Hs). cbn [bind].
         rewrite (next_table_T2_eq st _ Hsim).
         rewrite (p_lines_cons t'). cbn [app].
-        rewrite (next_table_inter _ _ _ [] inter (p_hdr t') (p_name t') _ (Forall_nil _) Hio). cbn [bind fst snd].
+        pose proof (next_table_inter' (s_fullpos st) (s_index st) [] inter (p_hdr t') (p_name t') _ (Forall_nil _) Hio) as NT. cbn [app] in NT. rewrite NT. clear NT. cbn [bind fst snd].
         cbn [with_tables s_sim]; rewrite ?Hsim, tp_rename_id.
         change (p_hdr t' :: tl (p_lines t') ++ rest_lines its after) with (p_lines t' ++ rest_lines its after).
         rewrite (IH f st t' TTs' after nelt Hsim ltac:(cbn [length] in Hf; lia) Hnd' HT2 Hin' Hend'). reflexivity.
@@ -306,7 +341,7 @@ Section Loops.
         rewrite (p_lines_cons t'). cbn [app].
         change (p_sep t :: inter ++ p_hdr t' :: tl (p_lines t') ++ rest_lines its after)
           with ([p_sep t] ++ inter ++ p_hdr t' :: tl (p_lines t') ++ rest_lines its after).
-        rewrite (next_table_inter _ _ _ [p_sep t] inter (p_hdr t') (p_name t') _ (Forall_cons _ Hk (Forall_nil _)) Hio). cbn [bind fst snd].
+        pose proof (next_table_inter' (s_fullpos st) (s_index st) [p_sep t] inter (p_hdr t') (p_name t') _ (Forall_cons _ Hk (Forall_nil _)) Hio) as NT. rewrite NT. clear NT. cbn [bind fst snd].
         cbn [with_tables s_sim]; rewrite ?Hsim, tp_rename_id.
         change (p_hdr t' :: tl (p_lines t') ++ rest_lines its after) with (p_lines t' ++ rest_lines its after).
         set (st1 := with_tables st (tab_set (p_name t) (snd TT) (s_tables st))).
